@@ -399,6 +399,14 @@ func run(c Case) ev.Verdict {
 		}
 
 		argv := strings.Split(strings.TrimRight(string(b), "\n"), "\n")
+
+		// ssh strips double quotes around option values (ssh_config(5)): so does the oracle
+		for i := range argv {
+			if j := strings.Index(argv[i], "="); j > 0 && strings.HasSuffix(argv[i], `"`) && strings.HasPrefix(argv[i][j+1:], `"`) && len(argv[i]) > j+2 {
+				argv[i] = argv[i][:j+1] + argv[i][j+2:len(argv[i])-1]
+			}
+		}
+
 		// an option counts as given in either spelling ssh accepts: "-X value" or "-Xvalue", at any
 		// position. Host, port and user are judged by what the server saw (above), not by argv.
 		has := func(seq ...string) bool {
@@ -429,8 +437,9 @@ func run(c Case) ev.Verdict {
 
 		if c.Config {
 			checks = append(checks, []string{"-F", cfgPath})
-		} else {
-			checks = append(checks, []string{"-F", "/dev/null"})
+		} else if !has("-F", "/dev/null") && !has("-F", "none") {
+			// "none by default": either spelling ssh(1) documents for "read no configuration file"
+			return ev.Fail("no ssh config file is configured, but argv %q does not tell ssh to read none (-F /dev/null or -F none)", argv)
 		}
 
 		if c.Auth != "password" {
